@@ -1,7 +1,7 @@
 (* C05 — optimize never changes what a validated expression evaluates to. Property theorems only; proofs in OptFacts.v / Generic.v.
    optimize_t and eval_t are the very constants that are extracted and run against the crate. *)
 Require Import ZArith NArith Bool List Arith. Import ListNotations.
-Require Import F64 Dec Types Generic Lang Opt IO OptFacts GenStruct.
+Require Import F64 Dec Types Generic Lang Opt IO OptFacts GenStruct OptTab.
 
 (* value preservation, for every environment, every fuel (success, error midway, even exhaustion), every accumulator *)
 Theorem C05_value : forall E, call_no_undef E -> std_if_then_env E ->
@@ -51,3 +51,10 @@ Theorem C05_optimizer_arms_are_the_codes :
                              (NArray, GAllLiteral, FEvalWhole); (NArray, GNone, FRecAll); (NCall, GAllLiteral, FEvalWholeIfExistsPure); (NCall, GNone, FRecAll); (NAnyOther, GNone, WNothing)] /\
   gen_fold_constants_ends_ok = true /\ gen_expressions_are_const_as_modelled = true /\ gen_optimize_loop_as_modelled = true.
 Proof. repeat split; reflexivity. Qed.
+
+(* ... and the walks of the model ARE the reading of those arms: at every node, `tt` and `fold` satisfy exactly the equation that the first fitting arm prescribes
+   (glossary of body texts in OptTab.v), and `optimize` is the transform-fold-repeat loop *)
+Theorem C05_transform_is_the_table : forall e, Some (Generic.tt e) = match arm_for gen_transform_ternary_arms e with Some b => tt_body b e | None => None end.
+Proof. exact tt_is_the_table. Qed.
+Theorem C05_fold_is_the_table : forall E e, Some (Generic.fold as_bool is_empty un binop E e) = match arm_for gen_fold_constants_arms e with Some b => fold_body E b e | None => None end.
+Proof. exact fold_is_the_table. Qed.
